@@ -75,5 +75,16 @@ def run(pid, tier, seed, replay=None):
         write_evidence(pid, ev)
         print("%s %s: E2 %d cases (%d non-trivial) + E1 %d cases (%d non-trivial), %.1fs, violations=%d" % (pid, tier, c2["evaluations"], c2["distinct_nontrivial"], c1["evaluations"], c1["distinct_nontrivial"], ev["wall_s"], ev["violations"]))
         return max(rc1, rc2)
+    if pid == "C20":
+        import e3checks
+        if replay:
+            return e3checks.replay_c20(replay)
+        rc, ev = e3checks.run_c20(tier, seed)
+        write_evidence(pid, ev)
+        c = ev["coverage"]
+        print("%s %s: E2 %d fuzz cases + %d grid cases (8 builds), E3 %d hammer runs (%d non-trivial), litmus %s, %.1fs, violations=%d" % (
+            pid, tier, c["e2_fuzz"]["evaluations"], c["e2_fuzz"]["boundary_grid_cases_enumerated_exhaustively"], c["e3_hammer"]["evaluations"], c["e3_hammer"]["distinct_nontrivial"],
+            [(r["build"], r["control_both_zero"]) for r in c["e3_litmus"]], ev["wall_s"], ev["violations"]))
+        return rc
     print("unknown property", pid)
     return 2
